@@ -389,7 +389,45 @@ def c03_5(ctx: Ctx) -> RuleResult:
                 ok = po is not None and contains(fr, lambda y: y == po)
                 res.add(m, call_, "the failure flags are derived from the perturbed objectives reported in the same result", ok,
                         "" if ok else "flags and reported evaluations come from different evaluations", construct=f"{m.name}: flags from same evaluation")
+    # function side: the flags reported with (and used for) function values come from the unperturbed evaluation alone -
+    # a realization whose perturbations failed still has a valid function value
+    nf = 0
+    for m in ee.methods.values():
+        for call_ in calls_in(m):
+            if X.at(m, call_.func) != ("global", "ropt.results._function_results.FunctionResults"):
+                continue
+            kw = dict(X.at(m, call_)[3])
+            r = kw.get("realizations")
+            if r is None or r[0] != "call":
+                continue
+            fr = dict(r[3]).get("failed_realizations")
+            if fr is None:
+                continue
+            nf += 1
+            from ..util import deep_subterms
+
+            pert = [y for y in subterms(fr) if y[0] == "attr" and y[2] in ("perturbed_objectives", "perturbed_constraints")]
+            ok = not pert
+            res.add(m, call_, "FunctionResults: the failure flags derive from the unperturbed values only", ok,
+                    "" if ok else f"the function flags depend on `{show(pert[0], 60)}`: a realization that only lost perturbations is dropped from the function values (and the functions-only request at the same point disagrees)",
+                    construct=f"{m.name}: function flags from the function evaluation")
     if n == 0:
         raise AnalysisError("no GradientResults construction found")
+    if nf == 0:
+        raise AnalysisError("no FunctionResults construction found")
     res.floor = 4  # at least one construction site with its four clauses (sites may be shared by several paths)
     return res
+
+
+@rule(P)
+def c03_6(ctx: Ctx) -> RuleResult:
+    """Shared with C18.3: the thresholds the gates compare with are the configured ones - a default is filled in
+    only for None (an explicit 0 stays 0) and values are only clamped from above."""
+    from .c18 import c18_3
+
+    r = c18_3(ctx)
+    r.instances = [i for i in r.instances if "min_success" in i.construct]
+    for i in r.instances:
+        i.rule = "C03.6"
+    r.rule, r.title, r.floor = "C03.6", "realization_min_success / perturbation_min_success keep their configured value (default only for None, clamped to the ensemble / perturbation count)", 2
+    return r
